@@ -224,6 +224,9 @@ type c04SpellObs struct {
 	first     int // -2 = not applicable (datagram carrier)
 }
 
+// c04SrvUserinfo: user information put into the packet SERVER's endpoint address ("" or "user:password@")
+var c04SrvUserinfo = ""
+
 func c04RunSpell(c c04Spell) (o c04SpellObs) {
 	o.first = -1
 	probe, ok := c04Parse(c.spelling, "127.0.0.1:1/x")
@@ -336,7 +339,8 @@ func c04RunSpell(c c04Spell) (o c04SpellObs) {
 			return
 		}
 		p := freePort("udp")
-		srv = &server.PacketServer{ServerConfig: sconf, Address: addr.MustParseAddress(fmt.Sprintf("udp://127.0.0.1:%d", p))}
+		// c04SrvUserinfo (third form, `srvpw`): the SERVER's endpoint carries a shared secret, the client's does not
+		srv = &server.PacketServer{ServerConfig: sconf, Address: addr.MustParseAddress(fmt.Sprintf("udp://%s127.0.0.1:%d", c04SrvUserinfo, p))}
 		startRelay = func() bool {
 			rl, err := newC04UDPRelay(fmt.Sprintf("127.0.0.1:%d", p), rec)
 			if err != nil {
